@@ -10,7 +10,9 @@ MANIFEST = {
             "cursors, per-thread program counters at the synchronisation points; any number of producers, consumers, "
             "capacity, items; arbitrary scheduler): one inductive invariant gives semaphore accounting, occupancy <= "
             "capacity, no slot overwritten before read / read before written, reads = prefix of writes (FIFO, exactly "
-            "once), per-pair order, no deadlock while work remains, termination; Chain ring and ThreadPool theorems on top. "
+            "once), per-pair order, no deadlock while work remains, termination; a refinement theorem to the atomic bounded "
+            "FIFO; on top of that FIFO the ThreadPool theorem (exactly once, destructor terminates) and the Chain ring "
+            "theorem over a faithful Link model (order, content, poison exactly once, ring deadlock freedom, Wait returns). "
             "Tied to the code by a cooperative scheduler harness that drives the real PCQueue / Chain / ThreadPool through "
             "the KPU_KENLM_VERIF scheduling points along schedules enumerated exhaustively from the model (small "
             "configurations) or generated at random, compared step by step (enabled sets, occupancy, returned values) with "
@@ -25,7 +27,7 @@ MANIFEST = {
 
 REQUIRED = ["KV.C17.sem_accounting", "KV.C17.never_over_cap", "KV.C17.fifo_exactly_once",
             "KV.C17.per_pair_order", "KV.C17.no_deadlock", "KV.C17.terminates", "KV.C17.maximal_run_delivers",
-            "KV.C17.pool_exactly_once", "KV.C17.chain_ring_partial"]
+            "KV.C17.pool_exactly_once", "KV.C17.chain_ring", "KV.C17.pcqueue_refines_fifo"]
 
 HARNESS_EXTRA = [REPO + "/util/" + f for f in (
     "exception.cc", "integer_to_string.cc", "stream/chain.cc", "stream/multi_progress.cc", "stream/io.cc", "file.cc",
@@ -87,7 +89,7 @@ def parse_trace(line):
                     tid, _, vals = part.partition(":")
                     finals[int(tid)] = [int(v) for v in vals.split(",") if v != ""]
             break
-        if t.startswith("I/") or t == "FREE" or t.startswith("x"):
+        if t.startswith("I/") or t == "FREE" or t.startswith("x") or t.startswith("P"):
             i += 1
             continue
         head, _, rest = t.partition("/")
@@ -439,6 +441,42 @@ def pool_chain_streams(ctx, hexe, dexe, problems):
     return found
 
 
+def probe_batch(ctx, hexe, dexe, n):
+    """Driven prefix, then release a thread that the model says is blocked: it must stay blocked (a thread that
+    passes a wait the model says blocks means the real semaphores are more permissive than the model); then the
+    run completes freely and the oracle is applied to the final values."""
+    rng = ctx.rng
+    cases = []
+    for _ in range(n):
+        cap, prods, quotas, _ = gen_random_pcq(rng, False)
+        if rng.random() < 0.6:
+            cap = rng.choice([1, 1, 2])
+        total = sum(len(p) for p in prods)
+        sched = random_sched(rng, len(prods) + len(quotas), rng.randrange(0, 10 * total + 2))
+        cases.append((cap, prods, quotas, sched))
+    lines = [pcq_line(*c) + " auto" for c in cases]
+    ho = run_harness(hexe, lines)
+    rc2, do, e2 = stream.run_lines(dexe, lines, timeout=900)
+    for i, c in enumerate(cases):
+        ctx.count(("probe", lines[i]), nontrivial=True)
+        ptok = [t for t in ho[i].split(" ") if t.startswith("P")]
+        ctx.hist("pcq.probe.outcome", ptok[0].split("=")[1] if ptok else "none")
+        mismatch = i >= len(do) or ho[i].split(" END")[0] != do[i]
+        bad = None if (mismatch and ptok and ptok[0].endswith("=passed")) else oracle_pcq(c[0], c[1], c[2], ho[i])
+        if bad:
+            ctx.violation("PCQueue (probe run): " + bad, {"stream": "pcq-probe", "op": lines[i], "impl": ho[i]})
+            return True
+        if mismatch:
+            what = "PCQueue: model and implementation disagree on a driven prefix / probe"
+            if ptok and ptok[0].endswith("=passed"):
+                what = ("PCQueue: a thread released into a semaphore wait / mutex lock that the model says blocks "
+                        "did NOT block (the real synchronisation is more permissive than the model)")
+            ctx.violation(what, {"stream": "pcq-probe", "op": lines[i], "impl": ho[i],
+                                 "model": do[i] if i < len(do) else None}, no_input=False)
+            return True
+    return False
+
+
 # ---------------------------------------------------------------- the pcq stream
 def pcq_batch(ctx, hexe, dexe, cases, kind, hooks):
     """cases: list of (cap, prods, quotas, sched).  Returns True if a violation was reported."""
@@ -545,6 +583,9 @@ def _run(ctx, problems, hexe, priv):
                 ctx.hist("pcq.random.cap", c[0])
                 ctx.hist("pcq.random.items", min(sum(len(p) for p in c[1]) // 10 * 10, 200))
             found = pcq_batch(ctx, hexe, dexe, cases, "rnd", hooks) or found
+    # 2a. probes: a thread the model says is blocked must stay blocked when released
+    if hooks and not found:
+        found = probe_batch(ctx, hexe, dexe, 150 if quick else 1200) or found
     # 2b. ThreadPool and Chain, driven at operation granularity
     if hooks and not found:
         found = pool_chain_streams(ctx, hexe, dexe, problems) or found
